@@ -1,6 +1,6 @@
 (** Check functions for the live-namespace suite and the concurrent suite of C04
     (kernel evaluation of harness rows; see checks/C04.py, harness/cmd/vh/rooms.go). *)
-From SioV Require Import Adapter.Rooms Adapter.Broadcast Adapter.BroadcastCheck.
+From SioV Require Import Adapter.Rooms Adapter.Broadcast Adapter.BroadcastSpec Adapter.BroadcastCheck.
 Local Open Scope positive_scope.
 
 (** * Live: 3 real clients; sockets 1..3 (own-id rooms 1..3), rooms 4..6.
@@ -89,3 +89,20 @@ Definition joinrace_agree (c : jcase) : bool :=
 (** the property: a disconnected socket belongs to no room *)
 Definition joinrace_oracle (c : jcase) : bool :=
   let '(forced, ok, rooms, k) := c in negb ok && Nat.eqb (length rooms) 0 && Nat.eqb k 0.
+
+(** Localisation of a failing history (for the violation message / replay file only): index of
+    the first step whose observation violates the oracle, resp. differs from the model. *)
+Fixpoint steps_oracle_idx (a : ansp) (l : list step) (i : nat) : option nat :=
+  match l with
+  | [] => None
+  | o :: l' => let a' := ahstep a (s_op o) in
+               if step_oracle a' o then steps_oracle_idx a' l' (S i) else Some i
+  end.
+Fixpoint steps_agree_idx (n : nsp) (l : list step) (i : nat) : option nat :=
+  match l with
+  | [] => None
+  | o :: l' => let n' := hstep n (s_op o) in
+               if step_agree n' o then steps_agree_idx n' l' (S i) else Some i
+  end.
+Definition hist_first_bad (c : hcase) : option nat * option nat :=
+  (steps_oracle_idx (ANsp ∅ ∅ (list_to_set c.1) ∅) c.2 0, steps_agree_idx (Nsp empty_adapter (list_to_set c.1) ∅) c.2 0).
